@@ -273,6 +273,56 @@ pub fn run(args: &Args) -> Report {
         }));
         rep.count("parses", parsed);
 
+        // (3b) bulk numeric emission routes: streamed typed/complex slice writers vs the buffered builder
+        if case % 3 == 0 {
+            let n = match r.below(4) {
+                0 => 0,
+                1 => 1,
+                _ => r.usize_below(if miri { 8 } else { 300 }),
+            };
+            let xs: Vec<f64> = (0..n).map(|_| f64::from_bits(r.next_u64())).collect();
+            let us: Vec<u16> = (0..n).map(|_| r.next_u64() as u16).collect();
+            let cs: Vec<repe::Complex<f32>> = (0..n).map(|_| repe::Complex { re: f32::from_bits(r.next_u64() as u32), im: 1.5 }).collect();
+            let mut hh = hs.to_repe();
+            hh.spec = oracle::SPEC;
+            let built = |body: Vec<u8>| {
+                let mut hb = hh;
+                hb.body_format = 1; // BEVE
+                oracle::frame(SpecHeader::from_repe(&hb), &q, &body)
+            };
+            let mut bulk: Vec<(&'static str, Result<Vec<u8>, String>, Vec<u8>)> = vec![];
+            bulk.push(("write_message_typed_slice<f64>", catching(|| {
+                let mut w = ChunkyWriter::new(r.fork(11), 1 + r.usize_below(5000));
+                repe::write_message_typed_slice(&mut w, hh, &q, &xs).unwrap();
+                w.out
+            }), built(Message::builder().query_bytes(q.clone()).body_typed_slice(&xs).build().body)));
+            bulk.push(("write_message_typed_slice<u16>", catching(|| {
+                let mut w = ChunkyWriter::new(r.fork(12), 1 + r.usize_below(5000));
+                repe::write_message_typed_slice(&mut w, hh, &q, &us).unwrap();
+                w.out
+            }), built(Message::builder().body_typed_slice(&us).build().body)));
+            bulk.push(("write_message_complex_slice<f32>", catching(|| {
+                let mut w = ChunkyWriter::new(r.fork(13), 1 + r.usize_below(5000));
+                repe::write_message_complex_slice(&mut w, hh, &q, &cs).unwrap();
+                w.out
+            }), built(Message::builder().body_complex_slice(&cs).build().body)));
+            // the buffered builder through into_wire_bytes (its reserved headroom path) must equal to_vec
+            let bm = Message::builder().id(h.id).query_bytes(q.clone()).body_typed_slice(&xs).build();
+            bulk.push(("typed-slice builder into_wire_bytes", catching(|| bm.clone().into_wire_bytes()), bm.to_vec()));
+            for (name, got, want_b) in bulk {
+                rep.count("route_emissions", 1);
+                match got {
+                    Ok(bytes) if bytes == want_b => {}
+                    Ok(bytes) => {
+                        let at = bytes.iter().zip(want_b.iter()).position(|(a, b)| a != b).unwrap_or(bytes.len().min(want_b.len()));
+                        let cls = if n == 0 { "empty" } else { "nonempty" };
+                        rep.violation(format!("C01:route:{name}:{cls}"), format!("{name} with {n} elements, query {ql}: {} bytes vs buffered frame {} bytes, first difference at offset {at} ({} vs {})", bytes.len(), want_b.len(), hex_trunc(&bytes[at.min(bytes.len())..], 8), hex_trunc(&want_b[at.min(want_b.len())..], 8)), desc.clone());
+                    }
+                    Err(p) => rep.violation(format!("C01:route:{name}:panic"), p, desc.clone()),
+                }
+            }
+        }
+
         // (4) builder route: defaults must produce the v1 canonical header
         if case % 4 == 0 {
             let notify = r.coin();
